@@ -86,7 +86,7 @@ impl Default for SProfile {
             p_dup_names: 0,
             p_sequential: 20,
             p_allow_skipped: 10,
-            p_logs: 0,
+            p_logs: 25,
             outcome_w: [60, 10, 12, 6, 0],
             decorate: false,
             exclude_nonfinal_hook_failure: false,
@@ -274,6 +274,16 @@ fn gen_attempt(t: &mut Tape, c: &AttemptCtx<'_>, retries: Option<Retries>, p: &S
             hook_failed = true;
         } else {
             evs.push(Scenario::hook_passed(HookType::After));
+        }
+    }
+    // Log events (tracing integration) may sit anywhere inside the attempt; the runner delivers
+    // them as soon as they are emitted, e.g. an after hook's logs before that hook's Started.
+    if pct(t, p.p_logs) {
+        let n = 1 + t.pick(3);
+        for j in 0..n {
+            let pos = 1 + t.pick(evs.len());
+            let msg = if t.pick(4) == 0 { format!("log {tokbase}:{j} first line\n  second line\n") } else { format!("log {tokbase}:{j}\n") };
+            evs.insert(pos, Scenario::Log(msg));
         }
     }
     evs.push(Scenario::Finished);
